@@ -146,7 +146,13 @@ def baseline(pos, q, expose):
             if p == pos:
                 text = rp.render(a, quote=q)
                 g = gen_source(text, expose)
-                m = masked(g[1])
+                try:
+                    m = masked(g[1]) if g[0] == "ok" else None
+                except (SyntaxError, TypeError, ValueError):
+                    m = None
+                if m is None:  # even the harmless program yields no valid Python: reported by the caller
+                    _BASE[key] = (None, ((g[0], short(repr(g[1:]), 120)), frozenset()))
+                    continue
                 env2 = {k: (v if v != MARK else MARK) for k, v in env.items()}
                 _BASE[key] = (m, run_profiled(text, env2))
     return _BASE[key]
@@ -179,7 +185,11 @@ def _work(units):
                         case["before"] = before
                     for expose in (False, True):
                         acc.add("evaluations")
-                        (bdump, bconsts), (bout, bseq) = baseline(pos, q, expose)
+                        bm, (bout, bseq) = baseline(pos, q, expose)
+                        if bm is None:
+                            acc.violation(dict(case, sub="ast", observed=short(repr(bout), 200), why="the code generated for the harmless program of this shape is not valid Python / could not be generated"))
+                            continue
+                        bdump, bconsts = bm
                         if before is not None:
                             impl.build(before)
                         g = gen_source(text, expose)
@@ -188,7 +198,7 @@ def _work(units):
                             continue
                         try:
                             dump, consts = masked(g[1])
-                        except SyntaxError as e:
+                        except (SyntaxError, TypeError, ValueError) as e:
                             acc.violation(dict(case, sub="ast", observed=f"SyntaxError: {e}", why="generated source is not valid Python"))
                             continue
                         want = [v if c == MARK else c for c in bconsts]
